@@ -1663,6 +1663,94 @@ def c02_const_1d(n):
     return go()
 
 
+def c02_const_1d_two_steps(n):
+    """_one_pop_const_params when the integration takes exactly two steps (the _compute_dt answer d satisfies d < T - initial_t < 2d): the matrix is built
+    once, and
+      * step 1 solves (a, b + 1/d, c) with right-hand side (phi + influx(d))/d,
+      * step 2 solves the SAME a, c and b + 1/(T - initial_t - d) -- the diagonal of step 1 does not leak into step 2 -- with right-hand side
+        (solution of step 1 + influx(T - initial_t - d))/(T - initial_t - d),
+      * the second solution is returned.
+    The solver result of step 1 is a vector of fresh symbols; a, b, c are compared with the first step's own arguments (whose closed form is the
+    one-step contract c02_const_1d)."""
+    oid = 'C02/Integration.py:_one_pop_const_params/two-steps.n%d' % n
+    fn = 'dadi/Integration.py::_one_pop_const_params'
+
+    @guarded(oid, fn)
+    def go():
+        T, t0, d = z3.Reals('T t0 d_step')
+        nu, g, h, th, beta = z3.Reals('nu gamma h theta0 beta')
+        xs = [z3.RealVal(0)] + reals('x', n - 2) + [z3.RealVal(1)]
+        ph = reals('phi', n)
+        hy = [T > t0, nu > 0, beta > 0, th >= 0, d > 0, d < T - t0, T - t0 < 2 * d] + [xs[i] < xs[i + 1] for i in range(n - 1)]
+        delj = uf('delj', 3)
+        solves = []
+
+        def policy(fr):
+            if fr.qualname == '_compute_dt':
+                return lambda ex_, f_, a, k_: d
+            if fr.qualname == '_compute_delj':
+                def cdj(ex_, f_, a, k_):
+                    dl, ml, vl = ex_.iterate(a[0]), ex_.iterate(a[1]), ex_.iterate(a[2])
+                    return VList([delj(to_real(exact(ml[k])), to_real(exact(dl[k])), to_real(exact(vl[k]))) for k in range(len(ml))], 'ndarray')
+                return cdj
+            if fr.qualname in ('_Mfunc1D', '_Vfunc', '_compute_dfactor', '_inject_mutations_1D', '_one_pop_const_params'):
+                return 'inline'
+            return 'abstract'
+
+        def ah(ex_, fref, a, kw, ctx):
+            if 'tridiag' in vrepr(fref):
+                # snapshot of the arguments at the time of the call (a later in-place update of b must not rewrite history)
+                snap = [VList(list(v.items), 'ndarray') if isinstance(v, VList) else v for v in a[:4]]
+                res = VList([z3.Real('psi%d_%d' % (len(solves) + 1, k)) for k in range(n)], 'ndarray')
+                solves.append((snap, VList(list(res.items), 'ndarray')))       # (the driver goes on to update the solution in place: keep its entries)
+                return res
+            return NotImplemented
+        ex = Executor(policy=policy, max_paths=64)
+        ex.abstract_hook = ah
+        ex.module_overrides[('dadi.Integration', 'cuda_enabled')] = False
+        f = ex.func('dadi/Integration.py', '_one_pop_const_params')
+
+        def thunk(e):
+            del solves[:]
+            r = e.apply(f.node, None, f.mod, [VList(list(ph), 'ndarray'), VList(xs, 'ndarray'), T], dict(nu=nu, gamma=g, h=h, theta0=th, initial_t=t0, beta=beta), 'f')
+            return r, list(solves)
+        paths = ex.explore(thunk, base_pc=hy)
+        rets = [p for p in paths if p.outcome == 'return']
+        if len(rets) != 1:
+            return [struct(oid, False, 'expected one returning path: %r' % [(p.outcome, p.pc[-2:]) for p in paths[:3]], fn, undecided=True)]
+        p = rets[0]
+        res, sv = p.value
+        out = [struct(oid + '.two-solves', len(sv) == 2, '%d tridiagonal solves' % len(sv), fn, finding_key='C02/const1d/two-steps')]
+        if len(sv) != 2:
+            return out
+        (a1, b1, c1, r1), psi1 = sv[0]
+        (a2, b2, c2, r2), psi2 = sv[1]
+        if not all(isinstance(v, VList) and len(v.items) == n for v in (a1, b1, c1, r1, a2, b2, c2, r2)):
+            return out + [struct(oid + '.shapes', False, 'tridiag arguments are not length-%d vectors' % n, fn, undecided=True)]
+        from contracts.c_verify import _resolve
+        hyp = list(p.pc)
+        dt2 = T - t0 - d
+        goals = []
+        for k in range(n):
+            goals.append((to_real(exact(a2.items[k])) == to_real(exact(a1.items[k])), 'a[%d] unchanged between the steps' % k))
+            goals.append((to_real(exact(c2.items[k])) == to_real(exact(c1.items[k])), 'c[%d] unchanged between the steps' % k))
+        mm = discharge(goals, hyp)
+        out.append(struct(oid + '.off-diagonals', mm is None, mm or 'a and c of step 2 are those of step 1', fn, finding_key='C02/const1d/two-steps'))
+        for k in range(n):
+            out.append(prove_eq('%s.b[%d]' % (oid, k), hyp, _resolve(to_real(exact(b2.items[k])) - 1 / dt2, hyp), _resolve(to_real(exact(b1.items[k])) - 1 / d, hyp), func=fn,
+                                timeout_ms=30000, finding_key='C02/const1d/two-steps', z3_first_ms=250))
+            infl1 = d * th / 2 / xs[1] * 2 / (xs[2] - xs[0]) if k == 1 else 0
+            infl2 = dt2 * th / 2 / xs[1] * 2 / (xs[2] - xs[0]) if k == 1 else 0
+            out.append(prove_eq('%s.r1[%d]' % (oid, k), hyp, _resolve(to_real(exact(r1.items[k])), hyp), (ph[k] + infl1) / d, func=fn, timeout_ms=30000,
+                                finding_key='C02/const1d/two-steps', z3_first_ms=250))
+            out.append(prove_eq('%s.r2[%d]' % (oid, k), hyp, _resolve(to_real(exact(r2.items[k])), hyp), (psi1.items[k] + infl2) / dt2, func=fn, timeout_ms=30000,
+                                finding_key='C02/const1d/two-steps', z3_first_ms=250))
+        out.append(struct(oid + '.returns-solution', isinstance(res, VList) and len(res.items) == n and all(x is y for x, y in zip(res.items, psi2.items)),
+                          'returns the second solve\'s result', fn, finding_key='C02/const1d/two-steps'))
+        return out
+    return go()
+
+
 def c17_integrate_1d():
     """Cache1D.integrate = theta * ( trapz(pdf(-g_i) S_i over the cached negative gammas) + S_neutral * int_0^{|g_min|} pdf + S_0 * int_{|g_max|}^inf pdf ),
     index 0 = most deleterious; exterior_int=False drops the two tails."""
